@@ -67,6 +67,8 @@ def gen_abstract(rng, opts=None):
     labels = ["loop", "end", "L1", "_skip", "foo", "Bar9", "done", "x_1", "mv2", "lix"]
     rng.shuffle(labels)
     labels = labels[:rng.choice([0, 1, 2, 3, 4])]
+    if rng.random() < 0.04 and not opts.get("no_reserved"):
+        labels = labels[:1] + [rng.choice(["nop", "ecall", "ebreak"])]     # legal label names that are also bare instructions (finding F8)
     items = []
     pos = sorted(rng.randrange(n + 1) for _ in labels)
     li = 0
@@ -501,6 +503,12 @@ def check_valid(c, prop, what=("listing", "data")):
     except KeyError:
         return fails
     out = c.impl_out[0]
+    reserved = [it for it in items if it[0] == "label" and it[1] in ("nop", "ecall", "ebreak")]
+    if reserved:
+        toks_ok = out.startswith("ok ") and (out.partition(" | ")[0].split()[2].split(";") if out.partition(" | ")[0].split()[2] != "." else []) == toks
+        if not toks_ok:
+            fails.append(Failure("oracle", prop, f"a label named {reserved[0][1]!r} is not treated as a label: {out[:100]} -- text {c.meta['text']!r}", "asm:label-named-like-bare-instruction"))
+        return fails
     if not out.startswith("ok "):
         fails.append(Failure("oracle", prop, f"well-formed program rejected: {out[:120]} -- text {c.meta['text']!r}", "asm:valid-rejected:" + out.split()[1]))
         return fails
